@@ -36,5 +36,6 @@ class ImportNode(BaseNode):
                 node.value_ref = None
                 node.value_slice = None
                 node.value_raw = node.raw_value()
+                node.defined = False    # it has a value: here it is a definition, whatever it began as
             nodes_new.append(node)
         return nodes_new
